@@ -21,6 +21,12 @@ Definition setter_rewires (w : scalar_name) : bool :=
   | WTm => Tm_setter_rebuilds | WTb => Tb_setter_rebuilds
   | WHfus => Hfus_setter_patches | WSfus => Sfus_setter_patches | WS0 => S0_setter_patches
   end.
+(* the setters that go through reset_energy_constant keep the functor OBJECTS when it patches them in place *)
+Definition setter_patches_in_place (w : scalar_name) : bool :=
+  match w with
+  | WTm | WTb => false
+  | _ => negb energy_constant_creates_new_functors
+  end.
 
 Section Machine.
   Variables Cc Hc Sc : Type.   (* content of a heat-capacity handle set / of the Hvap handle / scalar data *)
@@ -33,7 +39,8 @@ Section Machine.
      multi-phase chemical, reference phase i_pr w_in) and no rebuild followed *)
   Record chem : Type := mkC {
     c_kind : cnkind; c_pr : phase; c_sc : Sc; c_hv : Hc; c_cn : nat;
-    w_cn : nat; w_in : inputs; w_narrow : option phase }.
+    w_cn : nat; w_in : inputs; w_narrow : option phase;
+    w_ver : nat }.      (* identity of the current H / S functor OBJECTS: every rebuild makes new ones *)
 
   Definition heap := list Cc.
   Definition hget (h : heap) (k : nat) : Cc := nth k h d0.
@@ -45,20 +52,25 @@ Section Machine.
 
   (* _init_energies(self._Cn, self._Hvap, ..., self._phase_ref, self._S0) *)
   Definition rewire (h : heap) (c : chem) : chem :=
-    mkC (c_kind c) (c_pr c) (c_sc c) (c_hv c) (c_cn c) (c_cn c) (current h c) None.
+    mkC (c_kind c) (c_pr c) (c_sc c) (c_hv c) (c_cn c) (c_cn c) (current h c) None (S (w_ver c)).
   Definition rewire_if (b : bool) (h : heap) (c : chem) : chem := if b then rewire h c else c.
+  (* reset_energy_constant patching in place: the datum is written into the existing functor objects *)
+  Definition patch (c : chem) (f : Sc -> Sc) : chem :=
+    let i := w_in c in
+    mkC (c_kind c) (c_pr c) (c_sc c) (c_hv c) (c_cn c) (w_cn c)
+        (mkIn (i_kind i) (i_pr i) (f (i_sc i)) (i_cn i) (i_hv i)) (w_narrow c) (w_ver c).
 
-  Definition set_sc (c : chem) (s : Sc) : chem := mkC (c_kind c) (c_pr c) s (c_hv c) (c_cn c) (w_cn c) (w_in c) (w_narrow c).
-  Definition set_hv (c : chem) (x : Hc) : chem := mkC (c_kind c) (c_pr c) (c_sc c) x (c_cn c) (w_cn c) (w_in c) (w_narrow c).
-  Definition set_pr (c : chem) (p : phase) : chem := mkC (c_kind c) p (c_sc c) (c_hv c) (c_cn c) (w_cn c) (w_in c) (w_narrow c).
-  Definition set_cn (c : chem) (k : nat) : chem := mkC (c_kind c) (c_pr c) (c_sc c) (c_hv c) k (w_cn c) (w_in c) (w_narrow c).
+  Definition set_sc (c : chem) (s : Sc) : chem := mkC (c_kind c) (c_pr c) s (c_hv c) (c_cn c) (w_cn c) (w_in c) (w_narrow c) (w_ver c).
+  Definition set_hv (c : chem) (x : Hc) : chem := mkC (c_kind c) (c_pr c) (c_sc c) x (c_cn c) (w_cn c) (w_in c) (w_narrow c) (w_ver c).
+  Definition set_pr (c : chem) (p : phase) : chem := mkC (c_kind c) p (c_sc c) (c_hv c) (c_cn c) (w_cn c) (w_in c) (w_narrow c) (w_ver c).
+  Definition set_cn (c : chem) (k : nat) : chem := mkC (c_kind c) (c_pr c) (c_sc c) (c_hv c) k (w_cn c) (w_in c) (w_narrow c) (w_ver c).
   Definition set_kind_pr (c : chem) (k : cnkind) (p : phase) : chem :=
-    mkC k p (c_sc c) (c_hv c) (c_cn c) (w_cn c) (w_in c) (w_narrow c).
+    mkC k p (c_sc c) (c_hv c) (c_cn c) (w_cn c) (w_in c) (w_narrow c) (w_ver c).
   (* lock_phase(chemical, ph): _Cn becomes the handle of that phase (same object), phase_ref and the locked state
      become ph, and the energy PhaseHandles are narrowed to their .ph functors *)
   Definition lock (c : chem) (ph : phase) : chem :=
     mkC (CnLocked ph) ph (c_sc c) (c_hv c) (c_cn c) (w_cn c) (w_in c)
-        (match w_narrow c with Some q => Some q | None => Some ph end).
+        (match w_narrow c with Some q => Some q | None => Some ph end) (w_ver c).
   Definition at_state_on (flag : bool) (h : heap) (c : chem) (ph : phase) : chem :=
     match c_kind c with
     | CnHandle => rewire_if (at_state_rebuilds flag) h (lock c ph)
@@ -120,12 +132,15 @@ Section Machine.
         | None => s
         end
     | OSetPr i p => on_chem s i (fun h c => (h, rewire_if phase_ref_setter_rebuilds h (set_pr c p)))
-    | OSetSc i w f => on_chem s i (fun h c => (h, rewire_if (setter_rewires w) h (set_sc c (f (c_sc c)))))
+    | OSetSc i w f =>
+        on_chem s i (fun h c =>
+          let c' := set_sc c (f (c_sc c)) in
+          (h, if setter_rewires w then (if setter_patches_in_place w then patch c' f else rewire h c') else c'))
     end.
 
   Definition run (s : state) (ops : list op) : state := fold_left step ops s.
 
   (* a freshly constructed chemical *)
   Definition fresh (h : heap) (k : cnkind) (p : phase) (sc : Sc) (hv : Hc) (addr : nat) : chem :=
-    rewire h (mkC k p sc hv addr addr (mkIn k p sc (hget h addr) hv) None).
+    rewire h (mkC k p sc hv addr addr (mkIn k p sc (hget h addr) hv) None 0).
 End Machine.
